@@ -2,7 +2,12 @@ import PynModel.Kernels.Count
 /-!
 # C05 — count and bin_average attribute each sample to exactly its own bin
 Model: `Pyn.jitbin` (`jitcount` / `_jitbin_array`: `binLoop` over the bins of one epoch, `countIn`
-the innermost sample scan).  Proved so far: the innermost scan and the bin grid.
+the innermost sample scan).  Proved: the innermost scan (`countIn_spec`), the bin grid
+(`binLoop_centres`: the k-th reported bin of an epoch has centre `start + (k+1/2)·bin`, reported only
+while the centre ≤ end), the attribution (`binLoop_counts`: the k-th bin carries the number of samples
+of THIS epoch with `start + k·bin ≤ t < start + (k+1)·bin`; `countIn_counts`), and that the
+preallocated bin count never truncates (`nbBins_suffices`).  Safety of the whole kernel is C15
+(`jitbin_safe`).
 -/
 namespace Pyn.C05
 open Pyn
@@ -68,6 +73,165 @@ theorem binLoop_centres (ts dat : Array Int) (maxt : Nat) (hm : maxt ≤ ts.size
           rw [h5]
           have h7 : ((k - out.size : Nat) : Int) = ((k - (out.size + 1) : Nat) : Int) + 1 := by omega
           rw [h7, Int.add_mul]; omega
+
+/-! ## attribution: each reported bin counts exactly its own samples -/
+
+/-- number of samples with index in `[t, maxt)` and timestamp in the half-open bin `[a, b)` -/
+def cntBin (ts : Array Int) (t maxt : Nat) (a b : Int) : Nat :=
+  ((List.range maxt).filter fun i => decide (t ≤ i) && decide (a ≤ ts[i]!) && decide (ts[i]! < b)).length
+
+theorem filter_range_interval (n t t' : Nat) (h1 : t ≤ t') (h2 : t' ≤ n) :
+    ((List.range n).filter fun i => decide (t ≤ i) && decide (i < t')).length = t' - t := by
+  induction n generalizing t' with
+  | zero => simp; omega
+  | succ n ih =>
+    rw [List.range_succ, List.filter_append, List.length_append]
+    by_cases hn : t' ≤ n
+    · rw [ih t' h1 hn]
+      have : ¬ (n < t') := by omega
+      simp [this]
+    · have ht' : t' = n + 1 := by omega
+      subst ht'
+      by_cases htn : t ≤ n
+      · have e : ((List.range n).filter fun i => decide (t ≤ i) && decide (i < n + 1)) =
+            ((List.range n).filter fun i => decide (t ≤ i) && decide (i < n)) := by
+          apply List.filter_congr
+          intro i hi
+          simp only [List.mem_range] at hi
+          simp [hi, Nat.lt_succ_of_lt hi]
+        rw [e, ih n htn (Nat.le_refl _)]
+        simp [htn]; omega
+      · have e : ((List.range n).filter fun i => decide (t ≤ i) && decide (i < n + 1)) = [] := by
+          rw [List.filter_eq_nil_iff]
+          intro i hi
+          simp only [List.mem_range] at hi
+          simp; omega
+        rw [e]
+        simp [htn]; omega
+
+/-- **the innermost scan counts exactly the samples of the bin.**  On non-decreasing timestamps, when
+every remaining sample of the epoch is at or after the bin's left edge, the count returned by `countIn`
+is the number of samples of the epoch with `lbound ≤ t < rbound`, and every sample left over is at or
+after the right edge. -/
+theorem countIn_counts (ts dat : Array Int) (maxt : Nat) (hm : maxt ≤ ts.size) (hs : Sorted ts) (lb rb : Int) (t : Nat)
+    (ht : t ≤ maxt) (hlb : ∀ i, t ≤ i → i < maxt → (hi : i < ts.size) → lb ≤ ts[i]) :
+    (countIn ts dat maxt hm rb t 0 0).2.1 = cntBin ts t maxt lb rb ∧
+    t ≤ (countIn ts dat maxt hm rb t 0 0).1 ∧ (countIn ts dat maxt hm rb t 0 0).1 ≤ maxt ∧
+    (∀ i, (countIn ts dat maxt hm rb t 0 0).1 ≤ i → i < maxt → (hi : i < ts.size) → rb ≤ ts[i]) ∧
+    (∀ i, t ≤ i → i < (countIn ts dat maxt hm rb t 0 0).1 → (hi : i < ts.size) → ts[i] < rb) := by
+  obtain ⟨h1, h2, h3, h4, h5⟩ := countIn_spec ts dat maxt hm rb t 0 0 ht
+  generalize (countIn ts dat maxt hm rb t 0 0) = r at h1 h2 h3 h4 h5
+  have hge : ∀ i, r.1 ≤ i → i < maxt → (hi : i < ts.size) → rb ≤ ts[i] := by
+    intro i hi1 hi2 hi
+    have hr : r.1 < maxt := by omega
+    have := h5 hr (by omega)
+    have := hs r.1 i (by omega) hi hi1
+    omega
+  refine ⟨?_, h1, h2, hge, h4⟩
+  rw [h3]
+  unfold cntBin
+  have e : ((List.range maxt).filter fun i => decide (t ≤ i) && decide (lb ≤ ts[i]!) && decide (ts[i]! < rb)) =
+      ((List.range maxt).filter fun i => decide (t ≤ i) && decide (i < r.1)) := by
+    apply List.filter_congr
+    intro i hi
+    simp only [List.mem_range] at hi
+    have hi' : i < ts.size := by omega
+    rw [getElem!_pos ts i hi']
+    by_cases hti : t ≤ i
+    · have := hlb i hti hi hi'
+      by_cases hir : i < r.1
+      · have := h4 i hti hir hi'
+        simp [hti, hir, *]
+      · have := hge i (by omega) hi hi'
+        have hn : ¬ ts[i] < rb := by omega
+        simp [hti, hir, hn]
+    · simp [hti]
+  rw [e, filter_range_interval maxt t r.1 h1 h2]
+  omega
+
+theorem cntBin_shift (ts : Array Int) (t t' maxt : Nat) (hm : maxt ≤ ts.size) (a b : Int) (htt : t ≤ t')
+    (hlow : ∀ i, t ≤ i → i < t' → (hi : i < ts.size) → ts[i] < a) :
+    cntBin ts t maxt a b = cntBin ts t' maxt a b := by
+  unfold cntBin
+  congr 1
+  apply List.filter_congr
+  intro i hi
+  simp only [List.mem_range] at hi
+  have hi' : i < ts.size := by omega
+  rw [getElem!_pos ts i hi']
+  by_cases h1 : t' ≤ i
+  · have : t ≤ i := by omega
+    simp [h1, this]
+  · by_cases h2 : t ≤ i
+    · have := hlow i h2 (by omega) hi'
+      have hn : ¬ a ≤ ts[i] := by omega
+      simp [h1, h2, hn]
+    · simp [h1, h2]
+
+/-- **every reported bin holds the count of exactly its own samples.**  For non-decreasing timestamps
+and an epoch whose samples `[t, maxt)` all lie at or after the epoch start `l`, the k-th bin the loop
+reports carries the number of samples of THIS epoch with `l + k·bs ≤ t < l + (k+1)·bs` — samples on a
+bin edge go to the bin on their right, no sample is counted twice, none of another epoch is counted. -/
+theorem binLoop_counts (ts dat : Array Int) (maxt : Nat) (hm : maxt ≤ ts.size) (hs : Sorted ts) (e bs : Int) (hbs : 0 < bs)
+    (nb : Nat) (l : Int) (t : Nat) (out : Array (Int × Nat × Int)) (ht : t ≤ maxt)
+    (hlb : ∀ i, t ≤ i → i < maxt → (hi : i < ts.size) → l ≤ ts[i]) :
+    ∀ k, out.size ≤ k → (hk : k < (binLoop ts dat maxt hm e bs nb l t out).size) →
+      (binLoop ts dat maxt hm e bs nb l t out)[k].2.1 =
+        cntBin ts t maxt (l + ((k - out.size : Nat) : Int) * bs) (l + (((k - out.size : Nat) : Int) + 1) * bs) := by
+  induction nb generalizing l t out with
+  | zero => intro k hk1 hk; simp only [binLoop] at hk; omega
+  | succ nb ih =>
+    intro k hk1 hk
+    simp only [binLoop] at hk ⊢
+    split at hk
+    · omega
+    · rename_i hle
+      split
+      · rename_i hgt; exact absurd hgt hle
+      · obtain ⟨c1, c2, c3, c4, c5⟩ := countIn_counts ts dat maxt hm hs l (l + bs) t ht hlb
+        have hcen := binLoop_centres ts dat maxt hm e bs nb (l + bs) (countIn ts dat maxt hm (l + bs) t 0 0).1
+          (out.push (2 * l + bs, (countIn ts dat maxt hm (l + bs) t 0 0).2.1, (countIn ts dat maxt hm (l + bs) t 0 0).2.2))
+        by_cases hk0 : k = out.size
+        · subst hk0
+          rw [hcen.2.2.1 out.size (by simp) hk]
+          simp only [Array.getElem_push_eq, Nat.sub_self]
+          rw [c1]; simp
+        · have := ih (l + bs) (countIn ts dat maxt hm (l + bs) t 0 0).1
+            (out.push (2 * l + bs, (countIn ts dat maxt hm (l + bs) t 0 0).2.1, (countIn ts dat maxt hm (l + bs) t 0 0).2.2))
+            c3 (fun i h1 h2 hi => c4 i h1 h2 hi) k (by simp; omega) hk
+          rw [this]
+          simp only [Array.size_push]
+          have e1 : ((k - (out.size + 1) : Nat) : Int) = ((k - out.size : Nat) : Int) - 1 := by omega
+          rw [e1]
+          have e2 : l + bs + (((k - out.size : Nat) : Int) - 1) * bs = l + ((k - out.size : Nat) : Int) * bs := by
+            rw [Int.sub_mul]; omega
+          have e3 : l + bs + (((k - out.size : Nat) : Int) - 1 + 1) * bs = l + (((k - out.size : Nat) : Int) + 1) * bs := by
+            rw [Int.sub_add_cancel, Int.add_mul]; omega
+          rw [e2, e3]
+          symm
+          apply cntBin_shift ts t _ maxt hm _ _ c2
+          intro i h1 h2 hi
+          have := c5 i h1 h2 hi
+          have hpos : (1 : Int) ≤ ((k - out.size : Nat) : Int) := by omega
+          have : bs ≤ ((k - out.size : Nat) : Int) * bs := by
+            have := Int.mul_le_mul_of_nonneg_right hpos (Int.le_of_lt hbs)
+            simpa using this
+          omega
+
+/-- **the preallocated number of bins never truncates**: past `nbBins` bins the centre test would
+have stopped the loop anyway -/
+theorem nbBins_suffices (s e bs : Int) (hbs : 0 < bs) : 2 * (s + (nbBins s e bs : Int) * bs) + bs > 2 * e := by
+  unfold nbBins
+  split
+  · rename_i hgt
+    have hnn : 0 ≤ (e + bs - s + bs - 1) / bs := Int.ediv_nonneg (by omega) (by omega)
+    rw [Int.toNat_of_nonneg hnn]
+    have h1 := Int.lt_ediv_add_one_mul_self (e + bs - s + bs - 1) hbs
+    have h2 : (e + bs - s + bs - 1) / bs * bs ≥ e + bs - s + bs - 1 - bs + 1 - 1 := by
+      rw [Int.add_mul] at h1; omega
+    omega
+  · simp; omega
+
 
 def binOk : R (Array (Int × Nat × Int)) → Array (Int × Nat × Int) → Bool
   | .ok a, b => a == b
